@@ -669,13 +669,11 @@ package rapid
 //@   noframe "only ghost file-system state and fresh strings"
 //@   ensures [C16] implies(result == nil, fsRenamed)
 //@   ensures [C16] implies(fsRenamed != old(fsRenamed), fsClosed)
-//@   modifies fsWritten, fsClosed, fsRenamed, fsTmpName, fsTmpDir
+//@   modifies fsWritten, fsClosed, fsRenamed, fsTmpName, fsTmpDir, fsRenamedAtCreate
 //@   at os.CreateTemp#0 assert [C16] arg1 == failfileTmpPattern && arg0 == dir
 //@   at os.Rename#0 assert [C16] fsClosed && arg0 == fsTmpName && arg1 == filename && fsTmpDir == dir
-//@   at f.WriteString#0 assert [C16] fsRenamed == old(fsRenamed)
-//@   at f.WriteString#1 assert [C16] fsRenamed == old(fsRenamed)
-//@   loop 0 invariant [C16] !fsClosed && fsRenamed == old(fsRenamed) && fsTmpDir == dir && -1 <= rangeindex && rangeindex < len(out)
-//@   loop 1 invariant [C16] !fsClosed && fsRenamed == old(fsRenamed) && fsTmpDir == dir && -1 <= rangeindex && rangeindex < len(buf)
+//@   loop 0 invariant [C16] !fsClosed && fsRenamed == old(fsRenamed) && fsRenamed == fsRenamedAtCreate && fsTmpDir == dir && -1 <= rangeindex && rangeindex < len(out)
+//@   loop 1 invariant [C16] !fsClosed && fsRenamed == old(fsRenamed) && fsRenamed == fsRenamedAtCreate && fsTmpDir == dir && -1 <= rangeindex && rangeindex < len(buf)
 
 //@ func sameError
 //@   trusted "a real failure's traceback is never the literal '<no error>' text, so an error never equals 'no error'"
@@ -726,7 +724,7 @@ package rapid
 //@   ensures [C09] now(valid) == now(checks) || now(earlyExit) && now(valid) > 0
 //@   ensures [C09] tbErrors == old(tbErrors)
 //@   panics goexit [C02,C09]: tbFailed && tbErrors == old(tbErrors) + 1
-//@   modifies heap, drawn, runs, lastInit, searched, lockmode, cancelled, tbFailed, tbErrors, fsWritten, fsClosed, fsRenamed, fsTmpName, fsTmpDir, runesWritten
+//@   modifies heap, drawn, runs, lastInit, searched, lockmode, cancelled, tbFailed, tbErrors, fsWritten, fsClosed, fsRenamed, fsTmpName, fsTmpDir, fsRenamedAtCreate, runesWritten
 //@   at saveFailFile#0 assert [C06] arg3 == seed && arr(arg4) == arr(buf) && len(arg4) == len(buf) && arg1 == rapidVersion
 //@   at newBufBitStream#0 assert [C01,C06] arr(arg0) == arr(buf) && len(arg0) == len(buf) && !arg1
 //@   at captureTestOutput#0 assert [C06] arr(arg2) == arr(buf) && len(arg2) == len(buf)
